@@ -276,6 +276,69 @@ def stage_keep_needed(ctx: Ctx):
                                   {'slot': [p, f], 'child': kind, 'how': how, 'src': src0, 'result_src': root.src})
 
 
+SPECIAL_SLOTS = [
+    # (statement template with one hole, path to the hole from the statement, placeholder, replacements)
+    ('t = {}, bb', 'value.elts[0]', '*zz', 'STAR'), ('t = aa, {}', 'value.elts[1]', '*zz', 'STAR'), ('for ii in {}, bb: pass', 'iter.elts[0]', '*zz', 'STAR'),
+    ('t = [{}, bb]', 'value.elts[0]', '*zz', 'STAR'), ('ff({})', 'value.args[0]', '*zz', 'STAR'), ('return {}, bb', 'value.elts[0]', '*zz', 'STAR'), ('t[{}, bb]', 'value.slice.elts[0]', '*zz', 'STAR'),
+    ("t = f'{{ aa, {} }}'", 'value.values[0].value.elts[1]', 'zz', 'FSTR'), ("t = f'{{ aa if bb else {} }}'", 'value.values[0].value.orelse', 'zz', 'FSTR'),
+    ("t = f'{{ {} }}'", 'value.values[0].value', 'zz', 'FSTR'), ("t = f'{{ aa:{{ {} }} }}'", 'value.values[0].format_spec.values[0].value', 'zz', 'FSTR'),
+    ("t = f'{{ {}!r:>9 }}'", 'value.values[0].value', 'zz', 'FSTR'), ("t = f'{{ [aa, {}] }}'", 'value.values[0].value.elts[1]', 'zz', 'FSTR'), ("t = f'{{ aa or {} }}'", 'value.values[0].value.values[1]', 'zz', 'FSTR'),
+]
+SPECIAL_REPL = {
+    'STAR': ['*xx', '*(xx | yy)', '*(xx |\n yy)', '*(xx or yy)', '*(xx |  # c\n yy)', '*xx.yy', '*[xx,\n yy]', '*(xx\n .yy)', '*(xx if yy else zz)', '*(xx,\n yy)', 'xx', '(xx |\n yy)'],
+    'FSTR': ['lambda: xx', 'aa if bb else lambda: xx', 'cc, lambda: xx', '(lambda: xx)', 'ff(lambda: xx)', '[lambda: xx]', 'aa if bb else (lambda: xx)', 'xx := 1', '(xx := 1)', 'not lambda: xx' if False else 'xx if yy else zz',
+             'lambda aa=1: aa', 'cc if dd else ee if ff else lambda: xx', '{kk: lambda: xx}', 'xx or yy', 'yield xx' if False else 'xx[lambda: yy]'],
+}
+
+
+def stage_special_slots(ctx: Ctx):
+    """deterministic: starred elements (whose parentheses belong to their value) in naked tuples / lists / calls / subscripts with values that break lines inside their own
+    parentheses; replacement fields of f-strings (a ':' or '!' outside delimiters ends the expression) with lambdas anywhere at the end of the replacement. After the put the
+    source must parse to the template with exactly the replacement in the hole."""
+    import fst
+    for tmpl, path, placeholder, fam in SPECIAL_SLOTS:
+        try:
+            src0 = S.build(tmpl, placeholder)
+            ast.parse(src0)
+        except SyntaxError as e:
+            ctx.broken.append({'kind': 'harness', 'name': 'special_slots', 'detail': f'{tmpl!r}: {e}'})
+            continue
+        for repl in SPECIAL_REPL[fam]:
+            try:
+                want_child = ast.parse(f'[\n{repl}\n]', mode='eval').body.elts[0] if fam == 'STAR' else ast.parse(f'(\n{repl}\n)', mode='eval').body
+            except SyntaxError:
+                continue
+            for form in ('src', 'fst', 'ast'):
+                root = fst.FST(src0, 'exec')
+                tgt = S.hole(root.a, path)
+                code = repl
+                if form != 'src':
+                    try:
+                        cf = fst.FST(repl, 'expr_arglike')
+                    except Exception:
+                        continue
+                    code = cf if form == 'fst' else cf.a
+                desc = {'template': tmpl, 'path': path, 'replacement': repl, 'form': form, 'src': src0}
+                try:
+                    tgt.f.replace(code)
+                except Exception as e:
+                    ctx.dist['special:refused'] = ctx.dist.get('special:refused', 0) + 1
+                    if root.src != src0:
+                        ctx.violation('group|special|refusal-dirty', 'a refused replacement changed the source', {**desc, 'error': repr(e)[:200], 'result_src': root.src})
+                    continue
+                ctx.tick(('special', tmpl, repl, form), 'put:special-slot')
+                try:
+                    re_ = ast.parse(root.src)
+                    okc = canon(S.hole(re_, path)) == canon(want_child)
+                    live_ok = canon(root.a) == canon(re_)
+                    rest_ok = blank(re_, path) == blank(ast.parse(src0), path)
+                except (SyntaxError, IndexError, AttributeError, TypeError):
+                    okc = rest_ok = live_ok = False
+                if not (okc and rest_ok and live_ok):
+                    ctx.violation(f'group|special|{fam}|{tmpl}', 'after replacing the operand the source does not parse to the parent with exactly that replacement in that position',
+                                  {**desc, 'result_src': root.src, 'child_at_slot_ok': okc, 'rest_unchanged': rest_ok, 'live_tree_equals_reparse': live_ok})
+
+
 def run(ctx: Ctx):
     ctx.rule = ('(1) translated decision function vs the real one on every (child kind, parent, field) x 6 flag settings; (2) soundness of the hand grammar spec '
                 'against ast.parse on every (slot, child kind, example); (3) real puts: every (slot, child kind) x layout (bare / parenthesised / multi-line / '
@@ -290,6 +353,7 @@ def run(ctx: Ctx):
     run_guarded(ctx, stage_grammar_validation)
     run_guarded(ctx, stage_oracle)
     run_guarded(ctx, stage_keep_needed)
+    run_guarded(ctx, stage_special_slots)
 
 
 def replay(path):
